@@ -73,7 +73,7 @@ Definition ex_tail := repeat (ex_byte [] []) 8.
 Definition ex_ps (b0 b1 b2 b3 : pbyte) (sz : nat) := mkPstruct "S" "m.S" (Some sz) (Some sz) (Some sz) ["a"; "b"] ([b0; b1; b2; b3] ++ ex_tail).
 Definition ex_E := mkExc [] [] [] [].
 Example C02_nonvacuous :
-  cpp_layouts <> [] /\ py_layouts <> [] /\ value_rows <> [] /\
+  cpp_layouts <> [] /\ py_layouts <> [] /\ value_table <> [] /\
   value_ok (mkVrow "S" "a" "unpack" 1000%Z 1%Z 1%Z 1%Z 500000000%Z 1%Z) = false /\ value_ok (mkVrow "S" "a" "unpack" 1000%Z 1%Z 1%Z 128%Z 125%Z 16%Z) = true /\
   List.length py_layout_paths = 3 /\ (exists path, In (path, py_layouts) py_layout_paths) /\
   forallb (fun s => forallb (fun m => Nat.ltb 0 (ct_size (m_type m))) (s_members s)) cpp_layouts = true /\
